@@ -30,8 +30,13 @@ pub fn attach(bytes: &[u8], o: DwarfOpts) -> Option<Vec<u8>> {
     let comp_file = gw::LineString::String(b"main.c".to_vec());
     let mut program = gw::LineProgram::new(encoding, LineEncoding::default(), comp_dir, comp_file.clone(), None);
     let dir = program.default_directory();
-    let file1 = program.add_file(gw::LineString::String(b"a.c".to_vec()), dir, None);
-    let file2 = program.add_file(gw::LineString::String(b"b.c".to_vec()), dir, None);
+    // file names in each of the three string forms (inline, .debug_str reference, .debug_line_str reference -- the last is v5 only)
+    let file1 = program.add_file(gw::LineString::StringRef(dwarf.strings.add(&b"a.c"[..])), dir, None);
+    let file2 = if o.version >= 5 {
+        program.add_file(gw::LineString::LineStringRef(dwarf.line_strings.add(&b"b.c"[..])), dir, None)
+    } else {
+        program.add_file(gw::LineString::String(b"b.c".to_vec()), dir, None)
+    };
     let locals: Vec<&absmod::AbsFunc> = m.funcs.iter().filter(|f| !f.imported).collect();
     if locals.is_empty() {
         return None;
